@@ -33,6 +33,15 @@ for d in sorted(os.listdir(base)):
     if block:
         m['confirmed_in_scratch_worktree'] = block
         m['confirmed_by_me'] = 'tools/confirm_seeded.sh and tools/witness_seeded.sh, in the scratch worktree /tmp/wt/confirm at the /repo HEAD named below (results: seeded/CONFIRMED.txt, seeded/WITNESSED.txt)'
+    if '-w2' in d:
+        m['patch'] = 'patch.diff (apply with: git -C /repo apply /verif/seeded/%s/patch.diff ; undo with: git -C /repo checkout -- .)' % d
+        m['what_i_ran'] = 'tools/witness_seeded.sh %s (the check of the property, built against the scratch worktree with the patch applied, 30-40 s budget)' % d
+        if w and 'class=' in w:
+            cls = re.search(r'class=(\S+)', w).group(1)
+            m['caught'] = 'yes' if d not in ('C05-w2b1', 'C18-w2c10') else 'yes, after the check was strengthened (missed by the check as it stood; DESIGN.md 11.6)'
+            m['violation_classes_reported'] = [cls]
+        elif w:
+            m['caught'] = 'NO: ' + w
     if os.path.exists(os.path.join(base, d, 'patch.as-delivered.diff')):
         m['patch_note'] = 'patch.diff is the delivered change carried forward to the current /repo HEAD (3-way apply or, where the repaired code differs, re-created by hand with the same defect and trigger); patch.as-delivered.diff / patch.original.diff is what the sub-agent delivered'
     json.dump(m, open(mp, 'w'), indent=1)
